@@ -251,6 +251,7 @@ class Facts:
             for k, s in self.sums.items():
                 if k in h:
                     continue
+                k = getattr(self, "_moved", {}).get(k, k)
                 for d, r in s["calls"]:
                     for x in (d, r):
                         if x:
@@ -268,6 +269,7 @@ class Facts:
             for k, s in self.sums.items():
                 if k in h:
                     continue
+                k = getattr(self, "_moved", {}).get(k, k)
                 for g in s["aggs"]:
                     a.setdefault(g, set()).add(k)
             self._aggsites = a
